@@ -92,6 +92,15 @@ prop("C09", "E-ENV",
      "In the instrumented build every `for ... range m` over a map (11 sites today, found by go/types at check time) asks the explorer for the order: for each of ~1000 cases (projects with several valid/broken types, format and banned-rule conflicts, enum rules, allOf graphs, a slice of the annotated family, enum/regex/JSON-document/GuessSchemaType inputs) every order (all n! up to n=4, pair-complete set above) at <=1 (thorough 2) deviating sites, every permutation of the AddType/AddRule calls, two runs with heap perturbation and one run in a separate uninstrumented process must give byte-identical observables; no observable may contain an address-like token.",
      "Heap addresses / 'every process' are a two-point comparison; map order and registration order are exhaustive within the deviation bound.")
 
+prop("C10", "E-OPS x E-ENV",
+     "exhaustive operation histories over several objects, each under every sync.Pool answer within a deviation bound with a scribbling pool model; retained results re-read after every step; references from brand-new processes",
+     "All histories of length <=3 (thorough 4) over 40 symbols (6 operations x 5 schema projects incl. three that fail in the scanner, the rule loader and the checker; enum rule, regex, JSON document operations; repeated symbols act on the used object) are executed in the instrumented build where sync.Pool is a model pool: Get may answer with any pooled item or New() (<=1 deviation per history) and a buffer is overwritten when put back. After every step every value returned so far must equal its snapshot, and every result must equal the result of the same call made first in a brand-new process.",
+     "Sequential histories only; the pool model is Go's documented contract (any item or New, next owner may overwrite).")
+prop("C11", "E-SCHED",
+     "stateless model checking under a cooperative scheduler: all interleavings of 2-3 goroutines at every sync operation up to a preemption bound x sync.Pool answers; separate free-running race-detector pass of the same bodies",
+     "In the instrumented build every Mutex/RWMutex/Once/Pool operation of the repository is a scheduling point (before, and for pool operations also after); for 9 harnesses (own objects built from scratch; own compiled objects doing Example+OpenAPI; one shared schema with types under Check || Example || GetAST/Len/UsedUserTypes and OpenAPI || UsedUserTypes; shared enum rule; shared regex; VirtualNodeForAny; EnsureAdditionalProperties; StringSet) every schedule with <=2 preemptions is executed (110k executions quick), pool answers are explored as deviations, and each thread's result must equal its sequential result with no deadlock or panic. The same bodies run free under `go build -race` with real sync (16 goroutines x 150 iterations); any detector report is a violation.",
+     "Exhaustive only at sync operations under sequential consistency; races between two sync operations are decided by the race detector on the interleavings that occur.")
+
 ORDER = ["C%02d" % i for i in range(1, 21)]
 
 def main():
